@@ -1,5 +1,5 @@
 From Coq Require Import NArith Bool List.
-From CppUVerif Require Import C06_Model C06_Proofs C06_Sim C06_Period C06_Examples C06_Wrap.
+From CppUVerif Require Import C06_Model C06_Proofs C06_Sim C06_Period C06_Examples C06_Wrap C06_Plug C06_PlugProofs C06_PlugExamples.
 Theorem C06_category_exact : C06_category_exact_stmt. Proof. exact category_exact. Qed.
 Print Assumptions C06_category_exact.
 Theorem C06_user_writes_silent : C06_user_writes_silent_stmt. Proof. exact user_writes_silent. Qed.
@@ -14,14 +14,31 @@ Theorem C06_poison_before_free : C06_poison_before_free_stmt. Proof. exact poiso
 Print Assumptions C06_poison_before_free.
 Theorem C06_block_removed_after_report : C06_block_removed_after_report_stmt. Proof. exact block_removed_after_report. Qed.
 Print Assumptions C06_block_removed_after_report.
-Theorem C06_run_meets_spec : C06_run_meets_spec_stmt. Proof. exact run_meets_spec. Qed.
+(* the scenario language of the check (plugin level: every form of operator new / delete, the malloc wrappers, the overload switches) *)
+Theorem C06_run_meets_spec : C06_prun_meets_spec_stmt. Proof. exact prun_meets_spec. Qed.
 Print Assumptions C06_run_meets_spec.
+(* the detector-level language underneath it *)
+Theorem C06_detector_run_meets_spec : C06_run_meets_spec_stmt. Proof. exact run_meets_spec. Qed.
+Print Assumptions C06_detector_run_meets_spec.
 Theorem C06_wrappers_transparent : C06_wrappers_transparent_stmt. Proof. exact wrappers_transparent. Qed.
 Print Assumptions C06_wrappers_transparent.
 Theorem C06_period_independent : C06_period_independent_stmt. Proof. exact period_independent. Qed.
 Print Assumptions C06_period_independent.
 Theorem C06_release_in_any_period : C06_release_in_any_period_stmt. Proof. exact release_in_any_period. Qed.
 Print Assumptions C06_release_in_any_period.
+(* the plugin layer: entry point table and overload-switch histories *)
+Theorem C06_wiring_coherent : C06_wiring_coherent_stmt. Proof. exact wiring_coherent. Qed.
+Print Assumptions C06_wiring_coherent.
+Theorem C06_entry_family : C06_entry_family_stmt. Proof. exact entry_family. Qed.
+Print Assumptions C06_entry_family.
+Theorem C06_lowering_is_property_view : C06_lowering_is_property_view_stmt. Proof. exact lowering_is_property_view. Qed.
+Print Assumptions C06_lowering_is_property_view.
+Theorem C06_form_pair_exact : C06_form_pair_exact_stmt. Proof. exact form_pair_exact. Qed.
+Print Assumptions C06_form_pair_exact.
+Theorem C06_form_pair_by_family : C06_form_pair_by_family_stmt. Proof. exact form_pair_by_family. Qed.
+Print Assumptions C06_form_pair_by_family.
+Theorem C06_old_language_embedded : C06_old_language_embedded_stmt. Proof. exact old_language_embedded. Qed.
+Print Assumptions C06_old_language_embedded.
 
 (* ------------------------------------------------------------------------------------------------------------------
    The guard check of the model IS the source: validMemoryCorruptionInformation as tools/cxx2gal.py regenerates it from
